@@ -32,6 +32,24 @@ fn error_variant(e: &simplicity::types::Error) -> String {
 
 const MAX_DISPLAY: usize = 1 << 20;
 
+/// `to_string()` that gives up after `MAX_DISPLAY` bytes, so that an unbounded error text is observed
+/// (as its length reaching the cap) without the harness paying for all of it.
+fn display_capped(e: &dyn std::fmt::Display) -> String {
+    struct Capped(String);
+    impl std::fmt::Write for Capped {
+        fn write_str(&mut self, s: &str) -> std::fmt::Result {
+            if self.0.len() + s.len() > MAX_DISPLAY + 4096 {
+                return Err(std::fmt::Error);
+            }
+            self.0.push_str(s);
+            Ok(())
+        }
+    }
+    let mut c = Capped(String::new());
+    let _ = std::fmt::write(&mut c, format_args!("{}", e));
+    c.0
+}
+
 fn run_lib(dag: &Dag, order: &[usize], program: bool, visible: &[bool], post: &[usize]) -> Result<LibResult, String> {
     Context::with_context(|ctx| {
         let wits = vec![None; dag.witness.len()];
@@ -39,7 +57,7 @@ fn run_lib(dag: &Dag, order: &[usize], program: bool, visible: &[bool], post: &[
         let inst = match ast::instantiate(dag, &ctx, order, &wits) {
             Ok(i) => i,
             Err(e) => {
-                let s = e.err.to_string();
+                let s = display_capped(&e.err);
                 if s.len() > MAX_DISPLAY {
                     return Err(format!("error display of {} bytes", s.len()));
                 }
@@ -63,7 +81,7 @@ fn run_lib(dag: &Dag, order: &[usize], program: bool, visible: &[bool], post: &[
                 Ok(LibResult::Ok(arrows))
             }
             Err(e) => {
-                let s = e.to_string();
+                let s = display_capped(&e);
                 if s.len() > MAX_DISPLAY {
                     return Err(format!("error display of {} bytes", s.len()));
                 }
@@ -92,7 +110,7 @@ pub fn check_dag(dag: &Dag, program: bool, k_orders: usize, rng: &mut Rng, case:
         let t0 = Instant::now();
         let lib = match guard(|| run_lib(dag, &order, program, &visible, &post)) {
             Ok(Ok(l)) => l,
-            Ok(Err(e)) => return violated("inference-misc", format!("{} ; order {:?} ; DAG {}", e, order, dag.render())),
+            Ok(Err(e)) => return violated(if e.starts_with("error display") { "error-display-unbounded" } else { "inference-misc" }, format!("{} (cap {} bytes) ; order {:?} ; DAG {}", e, MAX_DISPLAY, order, crate::runner::truncate(&dag.render(), 1500))),
             Err(p) => return violated("panic:inference", format!("{} ; order {:?} ; DAG {}", p, order, dag.render())),
         };
         let ms = t0.elapsed().as_millis();
@@ -226,8 +244,8 @@ pub fn run(ctx: &Ctx) {
         case.hash = Some(hash_str(&case.desc));
         check_dag(&dag, program, k, rng, case)
     });
-    ctx.run_sub("special-shapes", Plan::sample(t.pick(1_200, 40_000), 0.15), |rng, case| {
-        let kind = rng.below(6);
+    ctx.run_sub("special-shapes", Plan::sample(t.pick(8_000, 200_000), 0.15), |rng, case| {
+        let kind = rng.below(gen::SPECIAL_KINDS);
         let depth = rng.urange(0, t.pick(60, 300));
         let dag = gen::special_dag(rng, kind, depth);
         case.desc = format!("special kind {} depth {}: {}", kind, depth, crate::runner::truncate(&dag.render(), 400));
